@@ -5,6 +5,7 @@ import (
 	"fmt"
 	"os"
 	"strings"
+	"sync"
 
 	"github.com/ansible/receptor/pkg/logger"
 	"gopkg.in/yaml.v2"
@@ -22,6 +23,10 @@ var reloadParseAndRun = func(toRun []string) error {
 }
 
 var cfgNotReloadable = make(map[string]bool)
+
+// reloadLock serializes reload commands: the bookkeeping above and the configuration parser
+// are not safe for concurrent use, and control sessions run concurrently.
+var reloadLock sync.Mutex
 
 var reloadableActions = []string{
 	"tcp-peer",
@@ -160,6 +165,8 @@ func handleError(err error, errorcode int, logger *logger.ReceptorLogger) (map[s
 func (c *ReloadCommand) ControlFunc(_ context.Context, nc NetceptorForControlCommand, _ ControlFuncOperations) (map[string]interface{}, error) {
 	// Reload command stops all backends, and re-runs the ParseAndRun() on the
 	// initial config file
+	reloadLock.Lock()
+	defer reloadLock.Unlock()
 	nc.GetLogger().Debug("Reloading")
 
 	// Do a quick check to catch any yaml errors before canceling backends
